@@ -2,6 +2,7 @@ package c20
 
 import (
 	"fmt"
+	"os"
 	"sort"
 	"strings"
 
@@ -72,7 +73,22 @@ func checkUnitCase(c unitCase, o *pbt.Rec) pbt.Verdict {
 	if f != nil {
 		return classify(w, p, nil, *f)
 	}
+	// the unit's field comes back null with a non-null error although its RPC was never issued:
+	// the mock cannot be blamed for that null, the datasource dropped the call
+	if u := w.units[c.Unit]; u != nil && u.RPC != "" && out.resp != nil && !contains(out.res.RPCs, u.RPC) && errorMentionsKey(out.resp, u.Def.Name) {
+		return classify(w, p, nil, failure{kind: "call-dropped", side: "q", a: out, msg: fmt.Sprintf("the field %s is answered null (non-null error) although its RPC %s was never issued (RPCs: %v)\n q = %s\n response = %s",
+			c.Unit, u.RPC, out.res.RPCs, c.Q, clip(out.res.Body))})
+	}
 	return pbt.OK
+}
+
+func contains(l []string, s string) bool {
+	for _, x := range l {
+		if x == s {
+			return true
+		}
+	}
+	return false
 }
 
 func usableFor(rigName string) func(string) (bool, string) {
@@ -323,9 +339,7 @@ func checkOpCase(c opCase, o *pbt.Rec) pbt.Verdict {
 	for _, k := range c.Excluded {
 		o.Label("excluded:" + k)
 	}
-	fa, fb := fieldPaths(pa), fieldPaths(pb)
-	same := samePaths(fa, fb)
-	if same {
+	if samePaths(fieldPaths(pa), fieldPaths(pb)) {
 		o.Label("fieldset:same")
 	} else {
 		o.Label("fieldset:differs")
@@ -345,13 +359,9 @@ func checkOpCase(c opCase, o *pbt.Rec) pbt.Verdict {
 	}
 
 	// (2) consistency
-	var ms []mismatch
-	for _, m := range compare(a.walk, b.walk) {
-		if !same && excusedByBubbling(m, fa, fb, a.resp, b.resp) {
-			o.Label("consistency:null-explained-by-extra-field")
-			continue
-		}
-		ms = append(ms, m)
+	ms, explained := compare(a.walk, b.walk, a.resp, b.resp)
+	if explained > 0 {
+		o.Label("consistency:null-explained-by-extra-selection")
 	}
 	if len(ms) == 0 {
 		if a.walk.nVals > 1 && b.walk.nVals > 1 {
@@ -370,12 +380,16 @@ func checkOpCase(c opCase, o *pbt.Rec) pbt.Verdict {
 			return pbt.OK
 		}
 		found := false
-		for _, m := range compare(a2.walk, b2.walk) {
-			if m.U == ms[0].U && strings.Join(m.A, "|") == strings.Join(ms[0].A, "|") && strings.Join(m.B, "|") == strings.Join(ms[0].B, "|") {
+		ms2, _ := compare(a2.walk, b2.walk, a2.resp, b2.resp)
+		for _, m := range ms2 {
+			if m.sig() == ms[0].sig() {
 				found = true
 			}
 		}
 		if !found {
+			if os.Getenv("C20_DEBUG") != "" {
+				fmt.Fprintf(os.Stderr, "FLAKY %s\n  q=%s\n  q2=%s\n", ms[0].String(), c.Q, c.Q2)
+			}
 			o.Discard("mismatch-not-reproducible")
 			return pbt.OK
 		}
@@ -387,7 +401,7 @@ func checkOpCase(c opCase, o *pbt.Rec) pbt.Verdict {
 		}
 		lines = append(lines, m.String())
 	}
-	return classify(w, pa, pb, failure{kind: "consistency", ms: ms, a: a, b: b, msg: fmt.Sprintf("consistency: %d field position(s) differ between q and its reformulation (%s): %s\n q  = %s\n q' = %s\n resp(q)  = %s\n resp(q') = %s",
+	return classify(w, pa, pb, failure{kind: "consistency", ms: ms, a: a, b: b, msg: fmt.Sprintf("consistency: %d field position(s) differ (reformulation: %s): %s\n q  = %s\n q' = %s\n resp(q)  = %s\n resp(q') = %s",
 		len(ms), c.Kind, strings.Join(lines, "; "), c.Q, c.Q2, clip(a.res.Body), clip(b.res.Body))})
 }
 
